@@ -1,0 +1,21 @@
+//go:build verif
+
+package dns
+
+import (
+	"net/http"
+
+	"github.com/hashicorp/go-retryablehttp"
+)
+
+// VerifRoundTripper, when non-nil, replaces the transport of the HTTP client
+// used by DoH. It exists only in builds with the verif tag and lets a
+// simulator stand in for the network; retries, back-off, status and body
+// handling stay those of the real client.
+var VerifRoundTripper http.RoundTripper
+
+func verifHookClient(c *retryablehttp.Client) {
+	if VerifRoundTripper != nil {
+		c.HTTPClient.Transport = VerifRoundTripper
+	}
+}
